@@ -30,9 +30,9 @@
      sam / vcf  async lazy read_record: read_until(LF) of the whole line, then the SYNC field
             scanner over the line as a slice reader (sync: the scanner runs on the source itself) *)
 From Coq Require Import List NArith Arith Bool.
-From NV Require Import Io.Source Io.ReadExact Io.BufReader Io.FastaScan Io.FastqRead Io.BedRead Io.TabRead.
+From NV Require Import Io.Source Io.ReadExact Io.BufReader Io.FastaScan Io.FastqRead Io.Run.
 From NV Require Import Async.ReadExact.
-From NV Require Fasta.Layout Fasta.Fastq Text.TextBase.
+From NV Require Fasta.Layout Fasta.Fastq.
 Import ListNotations.
 
 Definition abuf : Type := bstate asource.
@@ -200,14 +200,17 @@ Fixpoint aseq_out (fx : bool) (st : lstate) (d : list N) : list N :=
   end.
 
 (* an input on which the unrepaired async reader and the sync reader agree: no line of the
-   sequence starts with a CR (scanning stops at the next definition) *)
+   sequence starts with a CR that is followed by a byte other than LF (scanning stops at the next
+   definition; a CR LF pair or a final CR at the beginning of a line is dropped by both) *)
 Fixpoint no_bol_cr (st : lstate) (d : list N) : bool :=
   match d with
   | [] => true
   | x :: r =>
     if N.eqb x LF then no_bol_cr BOL r
     else match st with
-         | BOL => if N.eqb x GT then true else negb (N.eqb x CR) && no_bol_cr MID r
+         | BOL => if N.eqb x GT then true
+                  else (negb (N.eqb x CR) || match r with [] => true | y :: _ => N.eqb y LF end)
+                       && no_bol_cr MID r
          | MID => no_bol_cr MID r
          end
   end.
@@ -228,3 +231,14 @@ Definition async_fasta_seq_case (cap : nat) (codes : list nat) (data : list N)
   match a_read_sequence aread cap ab_fuel fasta_bol_cr_fixed (ab_start data codes) with
   | (r, out, n, st) => (r, out, n, length data - ab_left st)
   end.
+
+(* the sync readers on the same data, delivered whole (C12's runners; C12 proves that the delivery
+   does not matter) *)
+Definition sync_gff_case (data : list N) : list (nat * list N) * nat :=
+  let '(ls, st) := gff_lines 64 64 ([], mkSource data []) in (ls, length data - b_left st).
+
+Definition sync_fastq_case (data : list N) : list Fastq.qrec * option Fastq.qerr * nat :=
+  let '(r, st) := run_fastq 64 (mkSource data []) in (r, length data - b_left st).
+
+Definition sync_fasta_seq_case (data : list N) : sres * list N :=
+  fst (run_read_sequence 64 (mkSource data [])).
